@@ -5,4 +5,6 @@ CONSTANTS
   Scenarios <- ScnLifeNoCursor
   Focus = "life"
 INVARIANT GenInv
+INVARIANT TxnLockAgree
+INVARIANT DoneMeansCommitted
 CHECK_DEADLOCK FALSE
